@@ -106,6 +106,7 @@ type c11World struct {
 	reqN    int
 	tag     string
 	cur     string // id of the client request in flight
+	ns      string // namespace header of the requests do() sends ("" = root)
 
 	// atBackend, when set, is evaluated on the handler's goroutine at handler entry (device-fault monitor:
 	// "does any device hold the request entry right now?"); its answer is kept in the backend event
@@ -370,6 +371,9 @@ func (b *c11Backend) HandleRequest(ctx context.Context, req *logical.Request) (*
 		return c.(map[string]any)
 	}
 	if b.typ == logical.TypeCredential {
+		if strings.HasPrefix(req.Path, "info/") { // authenticated path of the auth mount answering with data
+			return &logical.Response{Data: cp()}, nil
+		}
 		if req.Path != "login" {
 			return nil, logical.ErrUnsupportedPath
 		}
@@ -638,7 +642,11 @@ func (w *c11World) do(req *logical.Request, hdrSecret string, extraHdrs ...strin
 			req.Headers[extraHdrs[i]] = []string{extraHdrs[i+1]}
 		}
 	}
-	resp, err := w.core.HandleRequest(c11Ctx(), req)
+	ctx := c11Ctx()
+	if w.ns != "" {
+		ctx = namespace.ContextWithNamespaceHeader(context.Background(), w.ns)
+	}
+	resp, err := w.core.HandleRequest(ctx, req)
 	w.mu.Lock()
 	w.cur = ""
 	w.mu.Unlock()
